@@ -69,3 +69,58 @@ def phase_C14(tier, seed, st, stats):
             for m in mism[:5]:
                 viol.append(dict(m, kind="config: implementation != Spec under configuration " + name))
     return cov, viol
+
+
+def phase_C05(tier, seed, st, stats):
+    """malloc measurement under the other CPU-feature configurations"""
+    cov = {"configurations": {"default": {"evaluations": stats.get("evaluations"), "notes": stats.get("notes")}}}
+    viol = []
+    for name, env in (("avx2off", {"GODEBUG": "cpu.avx2=off"}), ("popcntoff", {"GODEBUG": "cpu.popcnt=off"})):
+        outdir = os.path.join(BUILD, "run", "C05_" + name)
+        s2 = vlib.run_harness("C05", tier, seed, outdir, extra_env=env)
+        cov["configurations"][name] = {"evaluations": s2.get("evaluations"), "notes": s2.get("notes"),
+                                       "findings": len(s2.get("findings") or [])}
+        for f in (s2.get("findings") or []):
+            if f["kind"] == "infra":
+                raise Infra("harness: " + str(f.get("detail")))
+            if f["kind"] in ("alloc", "copy"):
+                viol.append({"kind": f["kind"], "fn": f.get("fn"), "case": f.get("case"),
+                             "detail": "configuration %s: %s" % (name, f.get("detail"))})
+    cov["effect_summary"] = effect_summary_stats()
+    return cov, viol
+
+
+def effect_summary_stats():
+    p = os.path.join(COQ, "gen", "Effects.v")
+    if not os.path.exists(p):
+        return {}
+    body = open(p).read()
+    return {"functions": body.count('", (['), "alloc_sites": body.count('("alloc"'), "write_sites": body.count('("write"'),
+            "external_calls": body.count('("ext"'), "dynamic_calls": body.count('("dyn"'), "asm_bodies": body.count('("asm"')}
+
+
+def phase_C18(tier, seed, st, stats):
+    """the same run under the race detector"""
+    hdir = os.path.join(VERIF, "harness")
+    hb = os.path.join(BUILD, "bin", "harness_race")
+    env = dict(GOENV, CGO_ENABLED="1")
+    with Lock(os.path.join(BUILD, ".lock")):
+        rc, out, _ = run(["go", "build", "-race", "-tags", "verif,verif_internals", "-o", hb, "."], cwd=hdir, env=env, timeout=900)
+        if rc != 0:
+            rc, out, _ = run(["go", "build", "-race", "-tags", "verif", "-o", hb, "."], cwd=hdir, env=env, timeout=900)
+            if rc != 0:
+                raise Infra("race build failed:\n" + out[-3000:])
+    outdir = os.path.join(BUILD, "run", "C18_race")
+    s2 = vlib.run_harness("C18", tier, seed, outdir, binary=hb, extra_env={"GORACE": "halt_on_error=0 exitcode=66"})
+    viol = []
+    races = s2.get("_out", "").count("WARNING: DATA RACE")
+    if races or s2.get("_rc") == 66:
+        viol.append({"kind": "race", "case": None, "detail": "race detector report (exit %s): %s" % (s2.get("_rc"), s2.get("_out", "")[-1500:])})
+    elif s2.get("_rc") not in (0,):
+        raise Infra("race run exited with %s: %s" % (s2.get("_rc"), s2.get("_out")))
+    for f in (s2.get("findings") or []):
+        if f["kind"] in ("relation", "mutated", "copy"):
+            viol.append({"kind": f["kind"], "fn": f.get("fn"), "case": f.get("case"), "detail": "under -race: %s" % f.get("detail")})
+    cov = {"race_run": {"evaluations": s2.get("evaluations"), "notes": s2.get("notes"), "race_reports": races},
+           "effect_summary": effect_summary_stats()}
+    return cov, viol
